@@ -1,5 +1,5 @@
 """C09 - the provider hierarchy is a forest with correct roots."""
-from pv import histrun, monitors
+from pv import conc, histrun, monitors
 from pv.gen.history import HistoryGen, Names
 
 META = {
@@ -12,9 +12,11 @@ META = {
             'reported parent/root and in_tree listings; distinct = canonical '
             'forest shapes reached + (move kind, subtree size) + refusal '
             'kinds',
-    'floors': {'moves': 5, 'moves_subtree_ge2_descendants': 1,
+    'floors': {'concurrent_schedules': 100,
+               'moves': 5, 'moves_subtree_ge2_descendants': 1,
                'refusals_due': 5, 'views_checked': 10},
-    'assumptions': ['SQLite backend', 'sequential requests'],
+    'assumptions': ['SQLite backend', 'sequential histories + committed-state sequences of '
+                    'transaction-level interleavings of request pairs/triples'],
     'shard_timeout': 3000,
 }
 
@@ -27,13 +29,34 @@ WEIGHTS.update({'post_rp': 10, 'put_rp': 14, 'delete_rp': 4,
                 'put_alloc': 1, 'put_invs': 1})
 
 
+CONC = conc.invariant_scenarios(include_tree=True)
+
+
 def plan(tier, seed, scale):
-    return histrun.plan_seeds(tier, seed, scale, 400, 8000,
+    shards = histrun.plan_seeds(tier, seed, scale, 400, 8000,
                               25 if tier == 'quick' else 125,
                               extra={'steps': 60 if tier == 'quick' else 80})
+    n = max(1, int(len(CONC) * min(scale, 1)))
+    for sh in conc.plan_scenarios(n, tier, seed, per=max(1, (n + 7) // 8)):
+        sh['conc'] = True
+        shards.append(sh)
+    return shards
+
+
+def conc_shard(spec, res):
+    def per_state(d, wit):
+        for kind, detail in monitors.forest_problems(d):
+            res.violation(
+                'C09|%s|concurrent|%s' % (kind, wit['scenario']),
+                'committed state after step %s of [%s]: %s %s' % (
+                    wit['after_step'], wit['transaction_order'], kind,
+                    detail), wit)
+    conc.run_invariants('C09', CONC, spec, res, per_state=per_state)
 
 
 def run_shard(spec, res):
+    if spec.get('conc'):
+        return conc_shard(spec, res)
     svc = histrun.Service()
     try:
         for i in range(spec['first'], spec['first'] + spec['count']):
